@@ -93,6 +93,9 @@ thread_local! {
 }
 
 fn flex_execute_recording(deps: DepsMut, env: Env, info: MessageInfo, msg: FlexExec) -> Result<Response, ContractError> {
+    if call_budget_exhausted() {
+        return Err(cosmwasm_std::StdError::generic_err("harness: call budget exhausted (out of gas)").into());
+    }
     let r = cw3_flex_multisig::contract::execute(deps, env, info, msg);
     let entry = match &r {
         Ok(resp) => Some(resp.messages.iter().map(|m| m.msg.clone()).collect()),
@@ -624,6 +627,7 @@ impl FlexScen {
     /// Run one transaction; returns (tx ok, panicked, handler-level results of the flex calls in it).
     fn run(&mut self, sender: &Addr, target: &Addr, msg: &(impl serde::Serialize + std::fmt::Debug), funds: &[Coin]) -> (bool, bool, Vec<Option<Vec<CosmosMsg>>>) {
         LOG.with(|l| l.borrow_mut().clear());
+        reset_call_budget();
         let app = match self.app.as_mut() {
             Some(a) => a,
             None => return (false, false, vec![]),
